@@ -22,6 +22,9 @@ CHECK_DEADLOCK FALSE
 """
 
 
+_POS = [0]
+
+
 def make_mw(bib, op, inplace):
     mw = bib.middlewares
     if op["m"] == "alpha":
@@ -29,6 +32,10 @@ def make_mw(bib, op, inplace):
     if op["m"] == "normalize":
         return mw.NormalizeFieldKeys(allow_inplace_modification=inplace)
     order = tuple(o if isinstance(o, str) else o["k"] for o in op["order"])
+    _POS[0] += 1
+    if _POS[0] % 2:
+        # the documented positional order of the constructor: order, case_sensitive, allow_inplace_modification
+        return mw.SortFieldsCustomMiddleware(order, op["cs"], inplace)
     return mw.SortFieldsCustomMiddleware(order=order, case_sensitive=op["cs"], allow_inplace_modification=inplace)
 
 
